@@ -554,7 +554,21 @@ def _conj(a, **kw):
     return Sym.of(a).conjugate()
 
 
+def _uf1(name):
+    def f(a, *k, **kw):
+        if isinstance(a, np.ndarray):
+            return _map(lambda x: f(x), a)
+        a = Sym.of(a)
+        if a.is_const():
+            import math
+            return {"log10": math.log10, "ceil": math.ceil}[name](a.cval())
+        conc = {"log10": (lambda v: __import__("math").log10(v)), "ceil": (lambda v: float(__import__("math").ceil(v)))}[name]
+        return core.CTX.def_uf(name, [a], concrete=conc)
+    return f
+
+
 OVERRIDES = {
+    np.log10: _uf1("log10"), np.ceil: _uf1("ceil"),
     np.conjugate: _conj, np.conj: _conj,
     np.where: _where, np.any: _any, np.all: _all, np.abs: _abs, np.absolute: _abs,
     np.isclose: _isclose, np.allclose: _allclose, np.array_equal: _array_equal,
@@ -565,6 +579,7 @@ OVERRIDES = {
     np.linalg.norm: _norm, np.linalg.inv: _inv, np.isnan: _isnan,
 }
 UFUNC_OVERRIDES = {
+    np.log10: _uf1("log10"), np.ceil: _uf1("ceil"),
     np.absolute: _abs, np.sqrt: _sqrt, np.log: _log, np.maximum: _maximum, np.minimum: _minimum,
     np.isnan: _isnan,
 }
@@ -572,7 +587,7 @@ UFUNC_OVERRIDES = {
 CONCRETE_ONLY = set()
 for _n in ("eig", "eigh", "eigvals", "eigvalsh", "pinv", "matrix_rank", "svd", "det", "solve", "cholesky", "qr", "lstsq", "matrix_power"):
     CONCRETE_ONLY.add(getattr(np.linalg, _n))
-for _n in ("argmax", "argmin", "argsort", "sort", "round", "floor", "ceil", "exp", "sin", "cos", "isfinite", "isinf", "nonzero", "unique", "cumsum", "prod", "mean", "std", "var", "histogram"):
+for _n in ("argmax", "argmin", "argsort", "sort", "round", "floor", "exp", "sin", "cos", "isfinite", "isinf", "nonzero", "unique", "cumsum", "prod", "mean", "std", "var", "histogram"):
     CONCRETE_ONLY.add(getattr(np, _n))
 
 
